@@ -213,8 +213,9 @@ func intrinsic(ex *Exec, st *State, site ssa.Instruction, fn *ssa.Function, args
 			}
 		}
 		return nil
-	case "Protect":
-		// Protect(object, mutex): object is a map or a pointer; mutex a *sync.Mutex
+	case "Protect", "ProtectRW":
+		// Protect(object, mutex): object is a map or a pointer; mutex a *sync.Mutex. ProtectRW: reads count too
+		// (for state that several goroutines write)
 		iv, ok := args[0].(*IfaceV)
 		if !ok {
 			panic(unsupported("Protect needs a map or pointer"))
@@ -233,6 +234,12 @@ func intrinsic(ex *Exec, st *State, site ssa.Instruction, fn *ssa.Function, args
 			ex.protected = map[int]int{}
 		}
 		ex.protected[obj] = mu
+		if name == "ProtectRW" {
+			if ex.protectedRW == nil {
+				ex.protectedRW = map[int]bool{}
+			}
+			ex.protectedRW[obj] = true
+		}
 		return nil
 	case "RegisterLED":
 		// RegisterLED(dev *openrgb.Device, capture *LedCapture, cancel func())
